@@ -910,6 +910,31 @@ def _propagate_new_locals(fd, known, log):
     if known_locals is None and not fd.get("inlined"):
         # a function the inventory does not know at all and that was not inlined: leave it as it is
         return
+    # N4c: a local that vanished while a new one of the same type appeared is the same local under a new name
+    if known is not None:
+        cur = {}
+        for e in exprs:
+            if e["k"] == "decl" and not e.get("inl"):
+                for v in e.get("vars", []):
+                    cur[v["name"]] = v
+        gone = {n: t for n, t in known["locals"].items() if n not in cur}
+        new = {n: v for n, v in cur.items() if n not in known["locals"]}
+        ren = {}
+        for n, v in new.items():
+            same = [g for g, t in gone.items() if t == v.get("t")]
+            rivals = [m for m, w in new.items() if w.get("t") == v.get("t")]
+            if len(same) == 1 and len(rivals) == 1:
+                ren[v["did"]] = (n, same[0])
+        if ren:
+            for e in exprs:
+                if e["k"] == "ref" and e.get("did") in ren and e.get("dk") == "local":
+                    e["name"] = ren[e["did"]][1]
+                elif e["k"] == "decl":
+                    for v in e.get("vars", []):
+                        if v.get("did") in ren:
+                            v["name"] = ren[v["did"]][1]
+            log.add("N4c", "%s(): %s" % (fd["name"], ", ".join("local %s is %s under a new name" % x for x in sorted(ren.values()))))
+            known_locals = set(known["locals"])
     cands = {}
     for i, e in enumerate(exprs):
         if e["k"] == "decl":
